@@ -183,7 +183,7 @@ func init() {
 			other := Fresh("as_ok", SBool)
 			ok2 := Or(direct, And(Neq(ITag(errv), IntLit(0)), other))
 			found := Fresh("as_val", SInt)
-			e.assume(Implies(e.curReach, And(Implies(direct, Eq(found, IVal(errv))), Implies(ok2, Neq(found, IntLit(0))), Lt(found, e.curState.next))))
+			e.assume(Implies(e.guard(), And(Implies(direct, Eq(found, IVal(errv))), Implies(ok2, Neq(found, IntLit(0))), Lt(found, e.curState.next))))
 			old := e.load(tl).(*Term)
 			e.store(tl, Ite(ok2, found, old))
 			return ok2
@@ -194,8 +194,26 @@ func init() {
 		bi := BoundVar("i", SInt)
 		r := Fresh("contains", SBool)
 		at := e.elemAt(e.curState, a[0], bi, es)
-		e.assume(Implies(e.curReach, Eq(r, Exists([]*Term{bi}, And(Le(IntLit(0), bi), Lt(bi, SLen(a[0])), Eq(at, a[1]))))))
+		e.assume(Implies(e.guard(), Eq(r, Exists([]*Term{bi}, And(Le(IntLit(0), bi), Lt(bi, SLen(a[0])), Eq(at, a[1]))))))
 		return r
+	}}
+	models["slices.Clone"] = &Model{Assumption: "A-SORT", Mods: []string{"next"}, Apply: func(e *Exec, f *ssa.Function, c *ssa.CallCommon, args []Val) Val {
+		// nil stays nil; otherwise a fresh backing array with the same elements (capacity at least the length)
+		s := e.toTerm(args[0], c.Args[0].Type())
+		es := sortOf(c.Args[0].Type().Underlying().(*types.Slice).Elem())
+		isNil := Eq(SArr(s), IntLit(0))
+		st := e.curState
+		r := st.next
+		allocRefs[r.id] = true
+		newCap := Fresh("clonecap", SInt)
+		comp := e.elems(st, es)
+		bi := BoundVar("i", SInt)
+		newArr := Select(comp, r)
+		oldArr := Select(comp, SArr(s))
+		e.assume(Implies(And(e.guard(), Not(isNil)), And(Ge(newCap, SLen(s)), Le(newCap, BigIntLit("1152921504606846976")), Eq(RType(r), arrayTag(es)),
+			Forall([]*Term{bi}, Implies(And(Le(IntLit(0), bi), Lt(bi, SLen(s))), Eq(At(newArr, IntLit(0), bi), At(oldArr, SOff(s), bi))), []*Term{At(newArr, IntLit(0), bi)}))))
+		st.next = Ite(isNil, st.next, Add(st.next, IntLit(1)))
+		return Ite(isNil, nilSlice, MkSlice(r, IntLit(0), SLen(s), newCap))
 	}}
 	models["slices.IndexFunc"] = &Model{Assumption: "A-SORT", Apply: func(e *Exec, f *ssa.Function, c *ssa.CallCommon, args []Val) Val {
 		s := e.toTerm(args[0], c.Args[0].Type())
@@ -208,7 +226,7 @@ func init() {
 		pred := func(x *Term) *Term { return e.applyPure(fv, []Val{x}).(*Term) }
 		r := Fresh("indexfunc", SInt)
 		bi := BoundVar("j", SInt)
-		e.assume(Implies(e.curReach, And(
+		e.assume(Implies(e.guard(), And(
 			Le(IntLit(-1), r), Lt(r, SLen(s)),
 			Implies(Ge(r, IntLit(0)), pred(e.elemAt(e.curState, s, r, es))),
 			Forall([]*Term{bi}, Implies(And(Le(IntLit(0), bi), Lt(bi, Ite(Ge(r, IntLit(0)), r, SLen(s)))), Not(pred(e.elemAt(e.curState, s, bi, es))))))))
@@ -255,14 +273,14 @@ func init() {
 		val := sfn("m_queryUnescape", SString, a[0])
 		e.assume(Implies(plain, And(ok, Eq(val, a[0]))))
 		errv := Fresh("unescErr", SIface)
-		e.assume(Implies(e.curReach, And(Eq(Eq(ITag(errv), IntLit(0)), ok), wfTerm(errv, types.Universe.Lookup("error").Type(), e.curState.next))))
+		e.assume(Implies(e.guard(), And(Eq(Eq(ITag(errv), IntLit(0)), ok), wfTerm(errv, types.Universe.Lookup("error").Type(), e.curState.next))))
 		return Tuple{Ite(ok, val, StrLit("")), errv}
 	}}
 	models["gopkg.in/yaml.v3.Unmarshal"] = &Model{Assumption: "A-YAML", Mods: []string{"*"}, Apply: func(e *Exec, f *ssa.Function, c *ssa.CallCommon, args []Val) Val {
 		// fills the target with arbitrary finite node trees or returns an error; the heap is havocked, inputs untouched
 		old := e.curState
 		e.curState = old.HavocAll()
-		e.assume(Implies(e.curReach, Ge(e.curState.next, old.next)))
+		e.assume(Implies(e.guard(), Ge(e.curState.next, old.next)))
 		errv := Fresh("yamlErr", SIface)
 		e.assumeWF(errv, types.Universe.Lookup("error").Type(), e.curState)
 		return errv
@@ -506,7 +524,7 @@ func (e *Exec) splitModel(s, sep *Term) *Term {
 	arr := Select(e.elems(e.curState, SString), r)
 	bi := BoundVar("i", SInt)
 	first := Select(arr, IntLit(0))
-	facts := []*Term{Ge(n, IntLit(1)), Le(n, Add(mk("str.len", SInt, s), IntLit(1))),
+	facts := []*Term{Ge(n, IntLit(1)), Le(n, Add(mk("str.len", SInt, s), IntLit(1))), Eq(RType(r), arrayTag(SString)),
 		Forall([]*Term{bi}, Implies(And(Le(IntLit(0), bi), Lt(bi, n)), Not(mk("str.contains", SBool, Select(arr, bi), sep))), []*Term{Select(arr, bi)}),
 		Eq(sfn("m_join", SString, arr, n, sep), s),
 		// first part: the longest prefix without the separator
@@ -514,7 +532,7 @@ func (e *Exec) splitModel(s, sep *Term) *Term {
 		Implies(Not(mk("str.contains", SBool, s, sep)), And(Eq(n, IntLit(1)), Eq(first, s))),
 		Implies(mk("str.contains", SBool, s, sep), And(Ge(n, IntLit(2)), Eq(first, mk("str.substr", SString, s, IntLit(0), mk("str.indexof", SInt, s, sep, IntLit(0)))))),
 	}
-	e.assume(Implies(e.curReach, And(facts...)))
+	e.assume(Implies(e.guard(), And(facts...)))
 	return res
 }
 
@@ -559,7 +577,7 @@ func (e *Exec) sortInPlace(s *Term, es Sort, cmp func(a, b *Term) *Term) {
 		// ordered
 		Forall([]*Term{bi, bj}, Implies(And(inR(bi), inR(bj), Lt(bi, bj)), Le(cmp(at(newComp, bi), at(newComp, bj)), IntLit(0)))),
 	}
-	e.assume(Implies(e.curReach, And(facts...)))
+	e.assume(Implies(e.guard(), And(facts...)))
 	st.Set(elemComp(es), newComp)
 }
 
@@ -571,14 +589,14 @@ func (e *Exec) newError(msg *Term, wrapped []*Term, typeName string) *Term {
 	tag := namedTag(typeName)
 	ev := MkIface(tag, r)
 	if msg.Sort == SString {
-		e.assume(Implies(e.curReach, Eq(sfn("m_errmsg", SString, ev), msg)))
+		e.assume(Implies(e.guard(), Eq(sfn("m_errmsg", SString, ev), msg)))
 	}
 	bt := BoundVar("t", SIface)
 	w := Eq(bt, ev)
 	for _, x := range wrapped {
 		w = Or(w, And(Neq(ITag(x), IntLit(0)), sfn("wraps", SBool, x, bt)))
 	}
-	e.assume(Implies(e.curReach, Forall([]*Term{bt}, Eq(sfn("wraps", SBool, ev, bt), w), []*Term{sfn("wraps", SBool, ev, bt)})))
+	e.assume(Implies(e.guard(), Forall([]*Term{bt}, Eq(sfn("wraps", SBool, ev, bt), w), []*Term{sfn("wraps", SBool, ev, bt)})))
 	return ev
 }
 
